@@ -297,6 +297,7 @@ func init() {
 			c01ShiftHistory(c)
 			c01NeighbourHistory(c)
 			c01CounterWalk(c)
+			c01RelatedCounters(c)
 			c01WasmTwin(c)
 			runArch386(c)
 			// hooked: key and message actually fed to the HMAC
@@ -398,6 +399,20 @@ func c01CounterWalk(c *Ctx) {
 		for _, off := range stepWalkOffsets(rng, c.N(300, 1200)) {
 			judgeHOTP(c, hotpCase{KeyHex: hexs(key), Secret: ref.Base32EncodeNoPad(key), Counter: base + uint64(off), Digits: d, Algo: a})
 			c.R.Count("adjacent_counter_walk_calls", 1)
+		}
+	}
+}
+
+// c01RelatedCounters: GenerateHOTP with one key and parameter set over bit-related counters (relatedCounters).
+func c01RelatedCounters(c *Ctx) {
+	rng := c.RNG.Fork(1130)
+	for w := 0; w < c.N(24, 300); w++ {
+		base := gen.Pick(rng, []uint64{uint64(rng.Intn(1000)), uint64(rng.Intn(1 << 30)), rng.U64() % (1 << 40), rng.U64()})
+		key := rng.Bytes(20)
+		d, a := uint8(1+rng.Intn(10)), uint8(rng.Intn(3))
+		for _, ctr := range relatedCounters(rng, base, 1<<64-1) {
+			judgeHOTP(c, hotpCase{KeyHex: hexs(key), Secret: ref.Base32EncodeNoPad(key), Counter: ctr, Digits: d, Algo: a, NilParam: w%8 == 7})
+			c.R.Count("bit_related_counter_history_calls", 1)
 		}
 	}
 }
